@@ -196,6 +196,121 @@ mod verif_c15_ignore {
 """
 
 
+TREE = "src/entry/tree.rs"
+CONFIG = "src/config/mod.rs"
+
+TREE_SPEC = r"""
+// opaque stand-ins for types the walk only passes around
+#[verifier::external_body] pub struct GroupEntry { _p: core::marker::PhantomData<()> }
+#[verifier::external_body] #[derive(Clone, Copy)] pub struct AnyBenchEntry<'a> { _p: core::marker::PhantomData<&'a ()> }
+#[verifier::external_body] pub struct ThreadsList<'a> { _p: core::marker::PhantomData<&'a ()> }
+#[verifier::external_body] pub struct CounterSet { _p: core::marker::PhantomData<()> }
+#[verifier::external_body] pub struct SharedContext { _p: core::marker::PhantomData<()> }
+#[verifier::external_body] pub struct PainterCell { _p: core::marker::PhantomData<()> }   // RefCell<TreePainter>
+#[verifier::external_body] #[derive(Clone, Copy)] pub struct Action { _p: core::marker::PhantomData<()> }
+#[verifier::external_body] pub struct Divan { _p: core::marker::PhantomData<()> }
+
+// BenchOptions::overwrite: `self` over `other`, field by field (its meaning is checked on the real function by
+// the complete Kani harness verif_c15::overwrite_per_field); here only WHO is overwritten by WHOM matters
+pub uninterp spec fn over(hi: BenchOptions<'static>, lo: BenchOptions<'static>) -> BenchOptions<'static>;
+impl<'a> BenchOptions<'a> {
+    #[verifier::external_body]
+    pub fn overwrite<'b>(&'b self, other: &'b Self) -> (r: Self) ensures r == over(*self, *other) { unimplemented!() }
+}
+// the options attached to a tree node (its benchmark's or group's attribute options), uninterpreted
+pub uninterp spec fn opts_of(c: EntryTree) -> Option<BenchOptions<'static>>;
+pub open spec fn val(o: Option<&BenchOptions>) -> Option<BenchOptions<'static>> { match o { Some(x) => Some(*x), None => None } }
+impl<'a> EntryTree<'a> {
+    #[verifier::external_body]
+    pub fn bench_options(&self) -> (r: Option<&'a BenchOptions>) ensures val(r) == opts_of(*self) { unimplemented!() }
+    #[verifier::external_body]
+    pub fn display_name(&self) -> (r: &'a str) { unimplemented!() }
+}
+
+// ---- what the walk does at ONE level, as a sequence of events: (index of the child, options handed on)
+pub enum Ev { Bench(int, Option<BenchOptions<'static>>), Descend(int, Option<BenchOptions<'static>>) }
+
+// a node's own options over what it inherits: child over parent, so that each field is the node's own
+// setting, else the nearest enclosing group's
+pub open spec fn handed_on(c: EntryTree, parent: Option<BenchOptions<'static>>) -> Option<BenchOptions<'static>> {
+    match (parent, opts_of(c)) {
+        (None, None) => None,
+        (Some(p), None) => Some(p),
+        (None, Some(o)) => Some(o),
+        (Some(p), Some(o)) => Some(over(o, p)),
+    }
+}
+pub open spec fn child_event(c: EntryTree, idx: int, parent: Option<BenchOptions<'static>>) -> Ev {
+    match c {
+        EntryTree::Parent { .. } => Ev::Descend(idx, handed_on(c, parent)),
+        EntryTree::Leaf { .. } => Ev::Bench(idx, handed_on(c, parent)),
+    }
+}
+pub open spec fn level_events(tree: Seq<EntryTree>, parent: Option<BenchOptions<'static>>, upto: int) -> Seq<Ev>
+    decreases upto,
+{
+    if upto <= 0 { Seq::empty() } else { level_events(tree, parent, upto - 1).push(child_event(tree[upto - 1], upto - 1, parent)) }
+}
+"""
+
+PIN_BENCH_CALL = """self.run_bench_entry(
+                    action,
+                    *entry,
+                    args.as_deref(),
+                    shared_context,
+                    options,
+                    tree_painter,
+                    is_last,
+                )"""
+PIN_DESCEND = """self.run_tree(
+                        action,
+                        children,
+                        shared_context,
+                        options,
+                        tree_painter,
+                    );"""
+PIN_PAINT1 = "tree_painter.borrow_mut().start_parent(name, is_last);"
+PIN_PAINT2 = "tree_painter.borrow_mut().finish_parent();"
+
+
+def tree_file(S: Sources):
+    """Divan::run_tree, one level of the descent, for EVERY tree (unbounded): each benchmark is handed to run_bench_entry,
+    and each group's children are walked, with the node's own options over the inherited ones (child over parent). The two
+    calls are pinned and replaced by recorders of their `options` argument (the recursive call is thereby reasoned about through
+    this same contract; termination not proved); the two painter calls are pinned and dropped."""
+    from units.loop_common import pin
+    dv = S(DIVAN); tr = S(TREE); o = S(OPT)
+    secs = [ghost("imports", "use core::time::Duration;\nuse core::cell::RefCell;", kind="glue")]
+    secs.append(code_item(o, o.find_item("struct", "BenchOptions"), subst=[(r"Option<Cow<'a, \[usize\]>>", "Option<ThreadsList<'a>>", 1)]))
+    secs.append(code_item(tr, tr.find_item("enum", "EntryTree")))
+    secs.append(ghost("C15 descent spec and stand-ins", TREE_SPEC, kind="trusted"))
+    f = dv.find_fn("run_tree", impl=r"impl Divan\b")
+    subst = [
+        # the two calls, whatever expression is passed as the `options` argument (it is what gets recorded)
+        (r"self\s*\.\s*run_bench_entry\s*\(\s*action\s*,\s*\*entry\s*,\s*args\s*\.\s*as_deref\(\)\s*,\s*shared_context\s*,\s*([^,;]+?)\s*,\s*tree_painter\s*,\s*is_last\s*,?\s*\)",
+         r"{ proof { log = log.push(Ev::Bench(ci, val(\1))); } }", 1),
+        (r"self\s*\.\s*run_tree\s*\(\s*action\s*,\s*children\s*,\s*shared_context\s*,\s*([^,;]+?)\s*,\s*tree_painter\s*,?\s*\)\s*;",
+         r"proof { log = log.push(Ev::Descend(ci, val(\1))); }", 1),
+        (pin(PIN_PAINT1), "", 1),
+        (pin(PIN_PAINT2), "", 1),
+        # Verus has no iterator adapters: `for (i, child) in tree.iter().enumerate()` becomes an index loop (header only)
+        (r"for\s*\(\s*i\s*,\s*child\s*\)\s*in\s+tree\s*\.\s*iter\(\)\s*\.\s*enumerate\(\)\s*\{",
+         "let ghost mut log: Seq<Ev> = Seq::empty();\n        let mut idx: usize = 0;\n        while idx < tree.len()\n            invariant 0 <= idx <= tree@.len(), log == level_events(tree@, val(parent_options), idx as int),\n        {\n            let i = idx; let child = &tree[idx]; let ghost ci: int = idx as int; idx = idx + 1;", 1),
+    ]
+    sec = code_fn(dv, f, "Divan::run_tree", subst=subst,
+                  sig_subst=[(r"tree_painter\s*:\s*&RefCell<TreePainter>", "tree_painter: &PainterCell", 1)],
+                  fn_end="proof { assert(log == level_events(tree@, val(parent_options), tree@.len() as int)); }",
+                  clauses="")
+    sec.text = "#[verifier::exec_allows_no_decreases_clause]\n" + sec.text
+    secs += wrap_impl("impl Divan", [sec])
+    import copy
+    csecs = copy.deepcopy(secs)
+    for c in csecs:
+        if c.name == "Divan::run_tree":
+            c.text = c.text.replace("tree@.len() as int)); }", "tree@.len() as int)); assert(false); // CANARY tree_end\n }")
+    return [VerusFile("c15_tree", secs, rlimit=60), VerusFile("c15_tree_canary", csecs, expect_fail=True, rlimit=60)]
+
+
 def build(S: Sources) -> Unit:
     for f in (OPT, COLL, DIVAN):
         S(f)
@@ -210,6 +325,12 @@ def build(S: Sources) -> Unit:
     errs = []
     from units import cli_common
     vfiles = guarded(lambda: cli_common.cfg_files(S, {"C15"}, "c15"), errs, [])
+    # the effective `ignore` in the terse listing walk (own, else nearest enclosing group's; run-time option first): same Verus unit as C14
+    from units import C14
+    vfiles = vfiles + guarded(lambda: C14.list_file(S, "c15"), errs, [])
+    vfiles = vfiles + guarded(lambda: tree_file(S), errs, [])
+    from units import pipeline_common
+    vfiles = vfiles + guarded(lambda: pipeline_common.pipeline_files(S, {"C15"}, "c15"), errs, [])
     return Unit(
         property_id="C15",
         build_errors=errs,
